@@ -198,6 +198,9 @@ pub struct DevInner {
     pub past_end: bool,
     /// accept writes but do not store them (mount-only experiments on a shared base image)
     pub discard_writes: bool,
+    /// non-zero: the device transfers fewer bytes than asked for in about half of its read / write calls (always at
+    /// least one), as the storage traits allow; the value seeds the deterministic sequence of transfer sizes
+    pub short_io: u64,
 }
 
 #[derive(Clone)]
@@ -238,6 +241,7 @@ impl MemDev {
             hi_write: 0,
             past_end: false,
             discard_writes: false,
+            short_io: 0,
         })))
     }
     pub fn dense(bytes: Vec<u8>) -> MemDev {
@@ -284,6 +288,19 @@ impl MemDev {
 }
 
 impl DevInner {
+    /// transfer size of this call under the short-transfer mode
+    fn shorten(&mut self, n: usize) -> usize {
+        if self.short_io == 0 || n <= 1 {
+            return n;
+        }
+        self.short_io = self.short_io.wrapping_mul(6364136223846793005).wrapping_add(1442695040888963407) | 1;
+        let r = self.short_io >> 33;
+        match r & 3 {
+            0 | 1 => n,
+            2 => 1 + (r >> 2) as usize % (n - 1),
+            _ => ((r >> 2) as usize % 3 + 1).min(n - 1),
+        }
+    }
     /// common prologue of every device call: count, budget, fault injection
     fn enter(&mut self, kind: Kind, off: u64, len: u64) -> Result<(), DevErr> {
         self.calls += 1;
@@ -332,6 +349,7 @@ impl fatfs::Read for MemDev {
         if n < buf.len() {
             d.past_end = true;
         }
+        let n = d.shorten(n);
         d.store.read_at(pos, &mut buf[..n]);
         d.pos += n as u64;
         if d.pos > d.hi_read {
@@ -358,6 +376,7 @@ impl fatfs::Write for MemDev {
         if n < buf.len() {
             d.past_end = true;
         }
+        let n = d.shorten(n);
         if !d.discard_writes {
             d.store.write_at(pos, &buf[..n]);
         }
